@@ -215,6 +215,26 @@ def _in_range(p, bound, _depth=0):
     return False
 
 
+def _reaches_negative(v):
+    """Name of an induction variable k such that the index polynomial v is provably negative at k = 1, all other
+    induction variables 0 (size symbols are >= 1); None when no such variable is found.  Only forms in which every term
+    that survives carries k and a negative coefficient: `n - 1 - k` (a reversed traversal) and `-1 - k` (counting from the
+    end on purpose) are not reported."""
+    p = v.aspoly() if isinstance(v, V) else None
+    if p is None or p.isconst():
+        return None
+    ind = {a for k in p.t for a, _ in k if a in RANGES}
+    for k in sorted(ind):
+        rk = RANGES[k]
+        rp = rk.aspoly() if isinstance(rk, V) else None
+        if rp is not None and rp.isconst() and rp.constval().re <= 1:
+            continue
+        rest = [(mono, c) for mono, c in p.t.items() if all(a == k or a not in RANGES for a, _ in mono)]
+        if rest and all(any(a == k for a, _ in mono) and not c.im and c.re < 0 and all(a == k or a.startswith("#") for a, _ in mono) for mono, c in rest):
+            return k
+    return None
+
+
 class Tensor:
     """Small dense array of values with literal shape."""
 
@@ -353,20 +373,25 @@ class Interp:
     _DEFINITE = {
         "KEX: tensor index out of range": "an array of literal extent is indexed outside that extent (with boundscheck off: a silent read / write of foreign memory)",
         "KEX: division by zero value": "a quotient whose denominator is identically zero for every input",
+        "KEX: too many indices for an array of literal shape": "an array is indexed with more indices than it has axes (a typing error when the kernel is compiled)",
+        "KEX: shape axis out of range": "the shape of an array is read at an axis the array does not have (a typing error when the kernel is compiled)",
     }
 
     def block(self, stmts):
         for st in stmts:
-            try:
-                self.stmt(st)
-            except AnalysisError as e:
-                why = self._DEFINITE.get(str(e))
-                if why is None or isinstance(st, (ast.For, ast.While, ast.If, ast.With, ast.Try)):
-                    raise
-                from .core import DefectFound
+            self.stmt_checked(st)
 
-                raise DefectFound(self.module.rel if self.module else "?", self.fn.name, getattr(st, "lineno", self.fn.lineno), "definite fault: " + _short(st),
-                                  "`%s`: %s" % (_short(st), why))
+    def stmt_checked(self, st):
+        try:
+            self.stmt(st)
+        except AnalysisError as e:
+            why = self._DEFINITE.get(str(e).split(": .shape[")[0])
+            if why is None or isinstance(st, (ast.For, ast.While, ast.If, ast.With, ast.Try)):
+                raise
+            from .core import DefectFound
+
+            raise DefectFound(self.module.rel if self.module else "?", self.fn.name, getattr(st, "lineno", self.fn.lineno), "definite fault: " + _short(st),
+                              "`%s`: %s" % (_short(st), why))
 
     def err(self, node, msg):
         raise AnalysisError(
@@ -533,7 +558,7 @@ class Interp:
                         self.guards.append(g)
                         pushed += 1
                     continue
-                self.stmt(st)
+                self.stmt_checked(st)
         finally:
             for _ in range(pushed):
                 self.guards.pop()
@@ -738,6 +763,14 @@ class Interp:
     # ------------------------------------------------------------ reads
     def read(self, arr, idx, node):
         idx = [simplify_index(tov(i)) for i in idx]
+        for i in idx:
+            at = _reaches_negative(i)
+            if at is not None:
+                from .core import DefectFound
+
+                raise DefectFound(self.module.rel if self.module else "?", self.fn.name, getattr(node, "lineno", self.fn.lineno), "negative index: " + _short(node),
+                                  "`%s`: the index %s of `%s` is negative in the iteration where %s = 1 and every other loop index is 0 (reached whenever that loop runs twice): with boundscheck off a slot "
+                                  "counted from the END of the array is read / written" % (_short(node), idx_str(i), arr.desc, at))
         for pattern, bound, val in reversed(arr.stores):
             if len(pattern) != len(idx):
                 self.err(node, "rank mismatch reading %s" % arr.desc)
@@ -868,6 +901,8 @@ class Interp:
     def tensor_select(self, base, idx, lits, node):
         """T[i, j] with symbolic i and/or j over literal extents: sum_k delta(i,k) * T[k, ...]."""
         k = next(n for n, l in enumerate(lits) if l is None)
+        if len(idx) > len(base.shape):
+            raise AnalysisError("KEX: too many indices for an array of literal shape")
         total = None
         for c in range(base.shape[k]):
             l2 = list(lits)
@@ -908,7 +943,7 @@ class Interp:
 
     def shape_of(self, arr, axis):
         if isinstance(arr, (Arr, Tensor)) and arr.shape is not None and isinstance(axis, int) and not -len(arr.shape) <= axis < len(arr.shape):
-            raise AnalysisError("KEX: .shape[%d] of a %d-dimensional array" % (axis, len(arr.shape)))
+            raise AnalysisError("KEX: shape axis out of range: .shape[%d] of a %d-dimensional array" % (axis, len(arr.shape)))
         if isinstance(arr, Arr) and arr.shape is not None:
             return arr.shape[axis]
         if isinstance(arr, Tensor):
@@ -944,6 +979,18 @@ class Interp:
             return g[e.id]
         if e.id in ("None",):
             return None
+        import builtins
+
+        bound = {a.arg for a in ast.walk(self.fn) if isinstance(a, ast.arg)} | {n.id for n in ast.walk(self.fn) if isinstance(n, ast.Name) and isinstance(n.ctx, ast.Store)}
+        bound |= {a.asname or a.name.split(".")[0] for n in ast.walk(self.fn) if isinstance(n, (ast.Import, ast.ImportFrom)) for a in n.names}
+        mod_names = set()
+        if self.module is not None:
+            mod_names = set(self.module.aliases) | set(self.module.assigns) | {q for q in self.module.functions if "." not in q} | set(self.module.classes)
+        if e.id not in bound and e.id not in mod_names and not hasattr(builtins, e.id):
+            from .core import DefectFound
+
+            raise DefectFound(self.module.rel if self.module else "?", self.fn.name, getattr(e, "lineno", self.fn.lineno), "unbound name: " + e.id,
+                              "`%s` is read but is bound nowhere: not a parameter, not assigned in the function, not a module-level name (a NameError, or a typing error when the kernel is compiled)" % e.id)
         self.err(e, "unknown name")
 
     def ev_Tuple(self, e):
